@@ -173,6 +173,17 @@ func ReuseWAL(cfg *config.Config, dir string, nextSeq uint64) (*WAL, error) {
 	// Try the most recent one (last in sorted order)
 	latestWAL := files[len(files)-1]
 
+	// Only append to a log that ends on an entry boundary. After a torn
+	// tail (crash in the middle of a write) or a damaged record, everything
+	// appended behind it would be unreadable; leave such a file as it is and
+	// let the caller start a new one
+	if !endsOnEntryBoundary(latestWAL) {
+		if !DisableRecoveryLogs {
+			fmt.Printf("Latest WAL file %s does not end cleanly, not reusing it\n", latestWAL)
+		}
+		return nil, nil
+	}
+
 	// Try to open for append
 	file, err := os.OpenFile(latestWAL, os.O_RDWR|os.O_APPEND, 0644)
 	if err != nil {
@@ -222,6 +233,22 @@ func ReuseWAL(cfg *config.Config, dir string, nextSeq uint64) (*WAL, error) {
 	}
 
 	return wal, nil
+}
+
+// endsOnEntryBoundary reports whether every byte of the WAL file belongs to a
+// complete, readable entry
+func endsOnEntryBoundary(path string) bool {
+	reader, err := OpenReader(path)
+	if err != nil {
+		return false
+	}
+	defer reader.Close()
+
+	for {
+		if _, err := reader.ReadEntry(); err != nil {
+			return err == io.EOF
+		}
+	}
 }
 
 // Append adds an entry to the WAL
